@@ -145,6 +145,10 @@ structure Sym where
   j : Nat
   /-- the layer parameters when the sample was generated -/
   par : Par
+  /-- the parameter changes made on the *running* layer since the reset before the sample was generated, latest first:
+  (extrusion code at the time of the change, the parameters that were replaced).  A new row/column is computed from
+  samples generated under the earlier parameters, so they are part of its identity. -/
+  plog : List (Nat × Par)
 deriving DecidableEq, Repr
 
 def _root_.HcipyVerif.Shift.Where.code : Where → Nat
@@ -174,12 +178,14 @@ structure InfL where
   screen : List Sym
   /-- the sub-pixel offset handed to the interpolation, in length units -/
   sub : V2
+  /-- parameter changes on the running layer since the last reset (see `Sym.plog`) -/
+  plog : List (Nat × Par) := []
 deriving DecidableEq, Repr
 
 /-- `_make_initial_phase_screen`: a temporary finite layer (oversampling 16) draws the screen. -/
 def InfL.initScreen (L : InfL) : InfL :=
-  { L with start := L.rng.pos, hist := 0,
-           screen := (List.range (L.nx * L.ny)).map (fun k => ⟨L.rng.pos, 0, k, L.par⟩),
+  { L with start := L.rng.pos, hist := 0, plog := [],
+           screen := (List.range (L.nx * L.ny)).map (fun k => ⟨L.rng.pos, 0, k, L.par, []⟩),
            rng := L.rng.draw (4 * (L.nx * L.ny)) }
 
 def InfL.pickRng (indep : Bool) (L : InfL) : InfL :=
@@ -199,16 +205,19 @@ def InfL.new (nx ny : Nat) (delta vel : V2) (par : Par) (seed : Nat) : InfL :=
   InfL.fresh nx ny delta vel par ((⟨seed, 0⟩ : Rng).draw (nx + ny))
 
 /-- the setters: `Cn_squared` is only stored (the extrusion multiplies the innovation by `sqrt(Cn_squared)` at the
-time of the extrusion, the matrices are built for unit strength); `L0` rebuilds the matrices, the stencils stay. -/
-def InfL.setCn2 (c : Rat) (L : InfL) : InfL := { L with par := { L.par with cn2 := c } }
-def InfL.setL0 (l : Rat) (L : InfL) : InfL := { L with par := { L.par with L0 := l } }
+time of the extrusion, the matrices are built for unit strength); `L0` rebuilds the matrices, the stencils stay.
+On a running layer the screen stays as it is and later rows/columns use the new value: the change is logged (`plog`). -/
+def InfL.setCn2 (c : Rat) (L : InfL) : InfL :=
+  { L with par := { L.par with cn2 := c }, plog := (L.hist, L.par) :: L.plog }
+def InfL.setL0 (l : Rat) (L : InfL) : InfL :=
+  { L with par := { L.par with L0 := l }, plog := (L.hist, L.par) :: L.plog }
 def InfL.setVel (v : V2) (L : InfL) : InfL := { L with vel := v }
 
 /-- one `_extrude(where)`: draws `ny` (horizontal) or `nx` numbers for the new column/row -/
 def InfL.extrude1 (w : Where) (L : InfL) : InfL :=
   let n := if w.horizontal then L.ny else L.nx
   let h := L.hist * 5 + w.code
-  let new := (List.range n).map (fun j => (⟨L.start, h, j, L.par⟩ : Sym))
+  let new := (List.range n).map (fun j => (⟨L.start, h, j, L.par, L.plog⟩ : Sym))
   { L with hist := h, rng := L.rng.draw n, screen := Shift.extrude w L.nx L.ny new L.screen }
 
 def InfL.extrudeN (w : Where) : Nat → InfL → InfL
@@ -218,9 +227,10 @@ def InfL.extrudeN (w : Where) : Nat → InfL → InfL
 /-- which side the new column enters for a pixel displacement `d` along x (repaired, D18) -/
 def sideX (d : Int) : Where := if d < 0 then .right else .left
 def sideY (d : Int) : Where := if d < 0 then .top else .bottom
-/-- the sides before the repair -/
-def sideXOld (d : Int) : Where := if d < 0 then .left else .right
-def sideYOld (d : Int) : Where := if d < 0 then .bottom else .top
+/-- the sides before the repair D18 (namespace `Old`: the code no longer exists in /repo; kept for the counterexample
+`direction_old_counterexample` only, no driver op runs it, not evidence about the current code) -/
+def Old.sideX (d : Int) : Where := if d < 0 then .left else .right
+def Old.sideY (d : Int) : Where := if d < 0 then .bottom else .top
 
 def pixel (c δ : Rat) : Int := roundHalfEven (c / δ)
 
@@ -239,7 +249,7 @@ def InfL.evolve (t : Rat) (L : InfL) : Option InfL :=
   if t < L.t then none else some (L.evolveWith sideX sideY t)
 
 def InfL.evolveOld (t : Rat) (L : InfL) : Option InfL :=
-  if t < L.t then none else some (L.evolveWith sideXOld sideYOld t)
+  if t < L.t then none else some (L.evolveWith Old.sideX Old.sideY t)
 
 /-- a refused operation leaves the layer as it was -/
 def InfL.step (L : InfL) : Op → InfL
@@ -273,9 +283,31 @@ def dot {K} [Add K] [Mul K] [Zero K] : List K → List K → K
 (`amp ≥ 0`, `amp² = Cn²`), `A`, `B` are rows of the two matrices (built for `Cn² = 1`). -/
 def arSample {K} [Add K] [Mul K] [Zero K] (A st B rnd : List K) (amp : K) : K := dot A st + dot B rnd * amp
 
-/-- a sample of the finite layer's screen: the spectral coefficients are `sqrt(psd)` times unit normals and the
-von-Kármán `psd` is proportional to `r0^(-5/3) = 0.423 k² Cn²`, so the sample is `amp` times the sample of the
-unit-strength screen with the same normals. -/
-def finSample {K} [Mul K] (amp unit : K) : K := amp * unit
+/-- **numeric `_extrude(where)`**, as the code computes it: `stencil_data = screen[stencil]` (on the flat-reversed
+screen for `top`/`right`; `idx` = the positions where the boolean stencil is set), one `arSample` per row of `A`, `B`
+for the new column/row, then the list surgery of `Shift.extrude`. -/
+def arExtrude {K} [Add K] [Mul K] [Zero K] (w : Where) (W H : Nat) (A B : List (List K)) (idx : List Nat)
+    (rnd : List K) (amp : K) (s : List K) : List K :=
+  let st := idx.map fun i => (stencilView w s).getD i 0
+  Shift.extrude w W H (List.zipWith (fun a b => arSample a st b rnd amp) A B) s
+
+/-- the data of one extrusion: side, the two matrices (built for unit strength), stencil positions, normals -/
+structure ArStep (K : Type) where
+  w : Where
+  A : List (List K)
+  B : List (List K)
+  idx : List Nat
+  rnd : List K
+
+/-- a sequence of extrusions with the amplitude `amp = sqrt(Cn²)` -/
+def arRun {K} [Add K] [Mul K] [Zero K] (W H : Nat) (amp : K) : List (ArStep K) → List K → List K
+  | [], s => s
+  | e :: es, s => arRun W H amp es (arExtrude e.w W H e.A e.B e.idx e.rnd amp s)
+
+/-- a sequence of extrusions, each with the amplitude `sqrt(Cn²)` in force at that time (`Cn_squared` changed on the
+running layer between extrusions; `arRun` is the case of a constant amplitude) -/
+def arRunLive {K} [Add K] [Mul K] [Zero K] (W H : Nat) : List (ArStep K × K) → List K → List K
+  | [], s => s
+  | (e, amp) :: es, s => arRunLive W H es (arExtrude e.w W H e.A e.B e.idx e.rnd amp s)
 
 end HcipyVerif.Layer
